@@ -41,6 +41,11 @@ func init() {
 		Run: func(c *Case) Verdict {
 			var w *WF
 			switch c.Tape.Choose(simrt.StGen, 9, 0) {
+			case 5:
+				// two gathering components side by side in one workflow: whatever
+				// package-level state the component code keeps is shared by them
+				w = twoConcatWF(c)
+				c.Probe("race-two-components-shape")
 			case 4:
 				// one of the bundled components in its small harness workflow (C19's
 				// shapes): combinators with several in-ports, selector, splitter,
@@ -216,6 +221,33 @@ func lazyIPFanoutWF(c *Case) *WF {
 			up = Edge{tg, "out"}
 		}
 		oneToOne(w, fmt.Sprintf("use%d", i), up)
+	}
+	w.MaxTasks = 1 + t.Choose(simrt.StGen, 4, 0)
+	w.Bufsize = bufsizeOf(t)
+	return w
+}
+
+// twoConcatWF: two independent branches source -> (process) -> Concatenator ->
+// process in one workflow (optionally one of them grouping by a tag).
+func twoConcatWF(c *Case) *WF {
+	t := c.Tape
+	w := &WF{Name: "wf", Sources: map[string]string{}}
+	for b := 0; b < 2; b++ {
+		n := 1 + t.Choose(simrt.StGen, 3, 0)
+		e := Edge{srcNode(w, fmt.Sprintf("src%d", b), n, ""), "out"}
+		if t.Choose(simrt.StGen, 2, 0) == 1 {
+			e = Edge{oneToOne(w, fmt.Sprintf("pre%d", b), e), "o0"}
+		}
+		groupBy := ""
+		if t.Choose(simrt.StGen, 3, 0) == 1 {
+			groupBy = "grp"
+			tg := addNode(w, Node{Name: fmt.Sprintf("tagg%d", b), Kind: KMapToTags, TagKey: "grp", TagGroups: 2, TagSkip: 2,
+				Ins: []InSpec{{Name: "in", From: []Edge{e}}}, Outs: []OutSpec{{Name: "out"}}})
+			e = Edge{tg, "out"}
+		}
+		cc := addNode(w, Node{Name: fmt.Sprintf("cat%d", b), Kind: KConcat, OutPath: fmt.Sprintf("concat/all%d.txt", b), GroupBy: groupBy,
+			Ins: []InSpec{{Name: "in", From: []Edge{e}}}, Outs: []OutSpec{{Name: "out"}}})
+		oneToOne(w, fmt.Sprintf("use%d", b), Edge{cc, "out"})
 	}
 	w.MaxTasks = 1 + t.Choose(simrt.StGen, 4, 0)
 	w.Bufsize = bufsizeOf(t)
